@@ -118,6 +118,15 @@ func checkIndex(fc *flowCtx, x, idx ssa.Value, at ssa.Instruction) (bool, bool, 
 	if ok, why := fc.indexBelowLen(idx, x, at); ok && nonNegative(idx, 0) {
 		return true, true, why + ", non-negative induction variable"
 	}
+	// idx < K for a constant K (a loop over a fixed-size array) and len(x) >= K
+	if k, ok := fc.constUpperBound(idx, at); ok && nonNegative(idx, 0) {
+		if arr, isArr := xt.(*types.Array); isArr && k <= arr.Len() {
+			return true, true, fmt.Sprintf("index bounded by the constant %d, the array has %d elements", k, arr.Len())
+		}
+		if ok2, why := fc.lenAtLeast(x, k, at); ok2 {
+			return true, true, fmt.Sprintf("index bounded by the constant %d and %s", k, why)
+		}
+	}
 	return false, true, fmt.Sprintf("variable index on %s without a dominating bound i < len on the same operand", opndStr(x))
 }
 
